@@ -780,6 +780,22 @@ impl<'a> G<'a> {
                 self.ins("int 0x21", "int21");
                 self.svc_reads += 1;
                 self.tag("int21_0a");
+                // the same buffer filled again (registers are untouched by the service): a shorter
+                // second line must leave the rest of the first one alone
+                let again = self.r.below(3) as usize;
+                for _ in 0..again.min(if self.r.chance(35) { 2 } else { 0 }) {
+                    self.ins("int 0x21", "int21");
+                    self.svc_reads += 1;
+                    self.tag("int21_0a_same_buffer_again");
+                }
+                // or a buffer whose count byte already holds something
+                if self.r.chance(15) {
+                    self.ins("inc bx", "plain");
+                    self.ins("mov byte [bx], 7", "plain");
+                    self.ins("int 0x21", "int21");
+                    self.svc_reads += 1;
+                    self.tag("int21_0a_stale_count");
+                }
                 if self.cfg.feat.prints && self.r.chance(40) {
                     self.ins("print mem : 20", "print");
                 }
